@@ -12,8 +12,13 @@ from xh_support import prepare_cattrs  # noqa: E402
 conv = prepare_cattrs("cl05.core.cattrs_converter")
 U = conv.unstructure_to_dict
 import cl05.endpoints.default as ep  # noqa: E402
+import cl05.endpoints.solo as ep_solo  # noqa: E402
 
-ep.structure_from_dict = conv.structure_from_dict  # the endpoints module bound the name at import
+for _m in (ep, ep_solo):
+    # the endpoints module bound the name at import; re-bind it to the prepared converter, but never CREATE it:
+    # a handler that uses a name its module does not import has to fail here as it does for a user
+    if hasattr(_m, "structure_from_dict"):
+        _m.structure_from_dict = conv.structure_from_dict
 from cl05.models import Circle, Item, Other, Square  # noqa: E402
 
 
@@ -67,7 +72,8 @@ def collect(agen):
 
 def call(name, resp):
     t = T(resp)
-    return drive(getattr(ep.DefaultClient(t, "http://h"), name)()), t.calls
+    client = ep_solo.SoloClient(t, "http://h") if name == "get_either" else ep.DefaultClient(t, "http://h")
+    return drive(getattr(client, name)()), t.calls
 
 
 def _norm(d):
